@@ -46,73 +46,6 @@ type c10Case struct {
 
 // ---------------------------------------------------------------- generator
 
-var c10Channels = []string{"", "", "", "edge", "beta", "latest/candidate", "2.0/stable"}
-var c10Cohorts = []string{"", "", "", "cohort-a", "cohort-b"}
-
-func c10GenFlags(t *rapid.T, r *worldReq) {
-	r.Channel = rapid.SampledFrom(c10Channels).Draw(t, "channel")
-	r.Cohort = rapid.SampledFrom(c10Cohorts).Draw(t, "cohort")
-	if r.Cohort == "" && rapid.IntRange(0, 7).Draw(t, "leave") == 0 {
-		r.LeaveCohort = true
-	}
-	switch rapid.IntRange(0, 11).Draw(t, "mode") {
-	case 0:
-		r.DevMode = true
-	case 1:
-		r.JailMode = true
-	case 2:
-		r.Classic = true
-	}
-	r.IgnoreValidation = rapid.IntRange(0, 5).Draw(t, "ignval") == 0
-	r.User = rapid.IntRange(0, 2).Draw(t, "user") == 0
-}
-
-func c10GenOp(t *rapid.T, snapName string, kinds []string) worldReq {
-	r := worldReq{Op: rapid.SampledFrom(kinds).Draw(t, "op"), Snap: snapName}
-	switch r.Op {
-	case "install":
-		r.Rev = rapid.IntRange(0, 6).Draw(t, "rev")
-		c10GenFlags(t, &r)
-		r.LeaveCohort = false
-	case "refresh":
-		r.Rev = rapid.IntRange(1, 12).Draw(t, "rev")
-		r.ByRev = rapid.IntRange(0, 2).Draw(t, "byrev") == 0
-		c10GenFlags(t, &r)
-	case "refresh-kept":
-		r.Pick = rapid.IntRange(0, 5).Draw(t, "pick")
-		c10GenFlags(t, &r)
-	case "revert":
-		r.NotBlocked = rapid.Bool().Draw(t, "notblocked")
-		c10GenRevertFlags(t, &r)
-	case "revert-to":
-		r.Pick = rapid.IntRange(0, 5).Draw(t, "pick")
-		r.NotBlocked = rapid.Bool().Draw(t, "notblocked")
-		c10GenRevertFlags(t, &r)
-	case "remove-rev":
-		r.Pick = rapid.IntRange(0, 5).Draw(t, "pick")
-	case "remove":
-		r.Purge = rapid.Bool().Draw(t, "purge")
-	case "switch":
-		r.Channel = rapid.SampledFrom([]string{"edge", "beta", "stable", "latest/candidate", "2.0/stable"}).Draw(t, "channel")
-		r.Cohort = rapid.SampledFrom(c10Cohorts).Draw(t, "cohort")
-	case "set-config":
-		r.Key = rapid.SampledFrom([]string{"a", "b", "c.d"}).Draw(t, "key")
-		r.Val = rapid.IntRange(0, 4).Draw(t, "val")
-	case "set-retain":
-		r.Retain = rapid.SampledFrom([]int{0, 2, 2, 3, 4, 5}).Draw(t, "retain")
-	}
-	return r
-}
-
-func c10GenRevertFlags(t *rapid.T, r *worldReq) {
-	switch rapid.IntRange(0, 9).Draw(t, "mode") {
-	case 0:
-		r.DevMode = true
-	case 1:
-		r.JailMode = true
-	}
-}
-
 var c10HistoryKinds = []string{
 	"refresh", "refresh", "refresh", "refresh", "refresh", "refresh-kept", "refresh-kept",
 	"revert", "revert", "revert-to", "remove-rev", "switch", "set-config", "set-config", "set-config",
@@ -127,7 +60,7 @@ var c10FinalKinds = []string{
 func c10Gen(t *rapid.T) c10Case {
 	c := c10Case{Snap: rapid.SampledFrom([]string{"some-snap", "some-snap", "some-snap", "services-snap", "some-snap_foo"}).Draw(t, "snap")}
 	c.Aliases = rapid.IntRange(0, 2).Draw(t, "aliases") == 0
-	c.Final = c10GenOp(t, c.Snap, c10FinalKinds)
+	c.Final = worldGenReq(t, c.Snap, c10FinalKinds)
 	maxHist := verifkit.Size(6, 8)
 	n := rapid.IntRange(1, maxHist).Draw(t, "nhist")
 	if c.Final.Op == "install" {
@@ -135,10 +68,10 @@ func c10Gen(t *rapid.T) c10Case {
 	}
 	for i := 0; i < n; i++ {
 		if i == 0 {
-			c.History = append(c.History, c10GenOp(t, c.Snap, []string{"install"}))
+			c.History = append(c.History, worldGenReq(t, c.Snap, []string{"install"}))
 			continue
 		}
-		c.History = append(c.History, c10GenOp(t, c.Snap, c10HistoryKinds))
+		c.History = append(c.History, worldGenReq(t, c.Snap, c10HistoryKinds))
 	}
 	return c
 }
